@@ -48,6 +48,10 @@ POOL = [
     "n(X) :- \\+ m(X, Y, Z), o(Y), o(Z).\n",
     "z :- u(A, B, C, D, E).\n",
     "w(X, X, Y) :- Y = [A, B, C|D], v(A), v(B), v(C), v(D).\n",
+    "m(X) :- X = [A, B, C], v(A), v(B), k([D, E]), v(C), v(E), v(D).\n",
+    "c1(X) :- (a(X) -> b(X) ; c(X)).\nc2(X) :- \\+ a(X), (b(X) -> true ; c(X)).\n",
+    # refused by the code generator (clause too large) after an if-then-else: state that leaks from an aborted compilation shows up next
+    "c3(X) :- (a(X) -> b(X) ; c(X)).\nbig :- " + ", ".join(["q"] * 21) + ".\n",
 ]
 
 
@@ -203,11 +207,16 @@ def make_body_b(info):
         with NoTracing():
             snap = {(m.__name__, n): repr(v) for m in (gen, vis, compiler) for n, v in vars(m).items()
                     if isinstance(v, (dict, list, set, frozenset)) and not n.startswith('__')}
-            alone = compiler.compile_prolog_from_string(POOL[pi], Ctx)
-            compiler.compile_prolog_from_string(POOL[qi], Ctx)
+            def comp(src):
+                try:
+                    return compiler.compile_prolog_from_string(src, Ctx)
+                except compiler.CompilerError as e:
+                    return 'CompilerError: %s' % e.message
+            alone = comp(POOL[pi])
+            comp(POOL[qi])
             if twice:
-                compiler.compile_prolog_from_string(POOL[qi] + POOL[pi], Ctx)
-            after = compiler.compile_prolog_from_string(POOL[pi], Ctx)
+                comp(POOL[qi] + POOL[pi])
+            after = comp(POOL[pi])
             snap2 = {(m.__name__, n): repr(v) for m in (gen, vis, compiler) for n, v in vars(m).items()
                      if isinstance(v, (dict, list, set, frozenset)) and not n.startswith('__')}
         if after != alone:
@@ -249,7 +258,7 @@ class HashSeeds(ch.DirectUnit):
 
     def texts(self):
         import glob
-        texts = list(POOL)
+        texts = list(POOL[:-1])
         for f in sorted(glob.glob('/repo/tests/data/*.prolog') + glob.glob('/repo/compiler/test/*.prolog')):
             texts.append(open(f, encoding='utf8').read())
         return texts
@@ -280,7 +289,7 @@ class HashSeeds(ch.DirectUnit):
 def units(tier, seed):
     us = []
     nch = 6 if tier == 'quick' else 8
-    for pi in range(len(POOL)):
+    for pi in range(len(POOL) - 1):
         us.append(dict(id='a.order.prog%d' % pi, kind='a', prog=pi, nch=nch, fixed={}, ob='C18.a', timeout=300 if tier == 'quick' else 1200, weight=60,
                        bounds='program %d of the pool; %d permutation choices in 0..4; 3 symbolic hash/id values' % (pi, nch)))
     us.append(dict(id='b.history', kind='b', fixed={}, ob='C18.b', timeout=300, weight=40, bounds='all pairs (Q, P) of the pool, with/without a third compilation'))
